@@ -1,3 +1,6 @@
+#[cfg(may_verif)]
+use crate::verif::atomic::{AtomicUsize, Ordering};
+#[cfg(not(may_verif))]
 use std::sync::atomic::{AtomicUsize, Ordering};
 use std::time::Duration;
 
